@@ -451,3 +451,245 @@ def fork_isclose(merge=False):
     finally:
         symnp.FORK_ISCLOSE[0] = old
         core.MERGE[0] = oldm
+
+
+# ==========================================================================================
+# Deterministic-uninterpreted generators (C13): the k-th draw of a stream created from `seed`
+# is U(seed, k) for an uninterpreted U, so two streams with equal seeds yield equal draws.
+_UFN = {}
+
+
+def _ufn(name, *sorts):
+    if name not in _UFN:
+        _UFN[name] = z3.Function(name, *sorts)
+    return _UFN[name]
+
+
+def _seed_term(seed):
+    if isinstance(seed, SymInt):
+        return seed.z
+    if isinstance(seed, bool):
+        return z3.IntVal(int(seed))
+    if isinstance(seed, int):
+        return z3.IntVal(seed)
+    return None
+
+
+class DetStream:
+    """random.Random(seed) with draws that are uninterpreted-but-deterministic functions of (seed, draw index)"""
+    created = []      # (stream, seed as given) for plumbing checks
+
+    def __init__(self, seed=None, family='py'):
+        c = _ctx()
+        self.family = family
+        self.seed_given = seed
+        st = _seed_term(seed)
+        if st is None:
+            # unseeded / seeded from something unmodelled: behaves like the process-global entropy source
+            k = c.counter('unseeded')
+            st = z3.Int(f"ENTROPY!{k}")
+            TAINT.reads.append(f'{family}.Random(seed={seed!r}) takes OS entropy')
+        self.seed_term = st
+        self.k = 0
+        DetStream.created.append((self, seed))
+
+    def _u(self):
+        c = _ctx()
+        self.k += 1
+        U = _ufn('U_' + self.family, z3.IntSort(), z3.IntSort(), z3.RealSort())
+        t = U(self.seed_term, z3.IntVal(self.k))
+        c.add(z3.And(t >= 0, t < 1))
+        c.model = None
+        return SymReal(t)
+
+    def random(self):
+        return self._u()
+
+    def uniform(self, a, b):
+        return a + (b - a) * self._u()
+
+    def _index(self, n):
+        if n <= 0:
+            raise IndexError('Cannot choose from an empty sequence')
+        if n == 1:
+            self.k += 1
+            return 0
+        u = self._u()
+        for i in range(n - 1):
+            if u < Fraction(i + 1, n):
+                return i
+        return n - 1
+
+    def choice(self, seq):
+        seq = list(seq) if not isinstance(seq, (list, tuple)) else seq
+        return seq[self._index(len(seq))]
+
+    def choices(self, population, weights=None, *, cum_weights=None, k=1):
+        population = list(population)
+        out = []
+        for _ in range(k):
+            if weights is None:
+                out.append(population[self._index(len(population))])
+                continue
+            ws = list(weights)
+            tot = core.ssum(ws)
+            u = self._u() * tot
+            acc = 0
+            pick = len(ws) - 1
+            for i, w in enumerate(ws[:-1]):
+                acc = acc + w
+                if u < acc:
+                    pick = i
+                    break
+            out.append(population[pick])
+        return out
+
+    def shuffle(self, x):
+        pool = list(x)
+        out = []
+        while pool:
+            out.append(pool.pop(self._index(len(pool))))
+        x[:] = out
+
+    def sample(self, population, k):
+        pool = list(population)
+        return [pool.pop(self._index(len(pool))) for _ in range(k)]
+
+    def randint(self, a, b):
+        return a + self._index(b - a + 1)
+
+    def seed(self, s=None):
+        self.__init__(s, self.family)
+
+    def getstate(self):
+        return ('det', self.seed_term, self.k)
+
+
+class GlobalStream(DetStream):
+    """a process-global generator: its state is arbitrary (fresh seed term per run), every use is tainted"""
+
+    def __init__(self, family):
+        c = _ctx()
+        k = c.counter('globalstate')
+        self.family = family
+        self.seed_given = None
+        self.seed_term = z3.Int(f"GLOBALSTATE_{family}!{k}")
+        self.k = 0
+
+    def _u(self):
+        TAINT.reads.append(f'global {self.family} generator consulted')
+        return super()._u()
+
+
+class DetRandomFacade(types.ModuleType):
+    """`random` module for reproducibility checks"""
+
+    def __init__(self):
+        super().__init__('symx_random_det')
+        self._g = None
+        self.seeds = []
+
+    def Random(self, seed=None):
+        self.seeds.append(seed)
+        return DetStream(seed, 'py')
+
+    def new_run(self):
+        """a different prior state of the global generator for the next run"""
+        self._g = GlobalStream('py')
+
+    def _glob(self):
+        if self._g is None or getattr(self._g, '_c', None) is not _ctx():
+            self._g = GlobalStream('py')
+            self._g._c = _ctx()
+        return self._g
+
+    def random(self): return self._glob().random()
+    def choice(self, seq): return self._glob().choice(seq)
+    def choices(self, *a, **k): return self._glob().choices(*a, **k)
+    def shuffle(self, x): return self._glob().shuffle(x)
+    def sample(self, p, k): return self._glob().sample(p, k)
+    def randint(self, a, b): return self._glob().randint(a, b)
+    def uniform(self, a, b): return self._glob().uniform(a, b)
+
+    def seed(self, s=None):
+        TAINT.writes.append('random.seed')
+
+    def __getattr__(self, k):
+        return getattr(_random, k)
+
+
+DET_RANDOM = DetRandomFacade()
+
+
+@contextlib.contextmanager
+def det_random(sx):
+    """swap `random` for the deterministic-uninterpreted model in every msdm module (SYM mode only)"""
+    preload()
+    undo = []
+    if sx.mode == 'sym':
+        for name, mod in list(sys.modules.items()):
+            if mod is None or not name.startswith('msdm.'):
+                continue
+            d = mod.__dict__
+            for k, v in list(d.items()):
+                if v is _random:
+                    undo.append((d, k, v))
+                    d[k] = DET_RANDOM
+    TAINT.reads.clear()
+    TAINT.writes.clear()
+    DET_RANDOM.seeds.clear()
+    DetStream.created.clear()
+    try:
+        yield DET_RANDOM
+    finally:
+        for d, k, v in undo:
+            d[k] = v
+
+
+class SaltedOrderSet(set):
+    """a set whose iteration / pop order over hash-randomised elements (anything containing a str) is chosen by the
+    solver per interpreter salt; sets of ints / tuples of ints iterate in CPython's fixed order"""
+    salt = [0]
+
+    @staticmethod
+    def _stable(e):
+        if isinstance(e, (int, float, bool)) or e is None:
+            return True
+        if isinstance(e, (tuple, frozenset)):
+            return all(SaltedOrderSet._stable(x) for x in e)
+        return False
+
+    def _order(self):
+        items = list(set.__iter__(self))
+        if len(items) <= 1 or all(self._stable(e) for e in items):
+            return items
+        c = _ctx()
+        K = _ufn('HashOrderKey', z3.IntSort(), z3.StringSort(), z3.RealSort())
+        keyed = []
+        for e in items:
+            t = K(z3.IntVal(self.salt[0]), z3.StringVal(repr(e)))
+            keyed.append((SymReal(t), e))
+        for i in range(len(keyed)):
+            for j in range(i + 1, len(keyed)):
+                c.add(keyed[i][0].z != keyed[j][0].z)
+        c.model = None
+        # insertion sort with symbolic comparisons (forks over the orders this salt can produce)
+        out = []
+        for kv in keyed:
+            pos = len(out)
+            for idx in range(len(out)):
+                if kv[0] < out[idx][0]:
+                    pos = idx
+                    break
+            out.insert(pos, kv)
+        return [e for _, e in out]
+
+    def __iter__(self):
+        return iter(self._order())
+
+    def pop(self):
+        if not len(self):
+            raise KeyError('pop from an empty set')
+        e = self._order()[0]
+        set.remove(self, e)
+        return e
